@@ -97,6 +97,24 @@ def _conic_height_for_angle(R, e, F, U):
     return lo
 
 
+def immersed_paraboloid(R, fno, n):
+    """Paraboloid mirror in a medium of index n (object space, the space behind the mirror and the
+    image surface all carry it): a conic mirror is stigmatic in any homogeneous medium, and the
+    optical path behind it is n times the geometric one."""
+    s = paraboloid(R, fno)
+    s["fam"] = "immersed_paraboloid"
+    s["medium"] = float(n)
+    return s
+
+
+def immersed_ellipsoid(R, p, q, near_object, na, n):
+    s = ellipsoid(R, p, q, near_object, na)
+    s["fam"] = "immersed_ellipsoid"
+    s["medium"] = float(n)
+    s["ap"] = ("objectNA", s["ap"][1] * float(n))        # NA = n sin(U): the same cone of rays
+    return s
+
+
 def window_paraboloid(R, fno, n):
     """A plane-parallel window (index n) in the collimated beam in front of a paraboloid mirror:
     still stigmatic.  After two refractions at normal incidence the direction cosine N of an
@@ -218,7 +236,11 @@ def build(s, wavelength=0.55, retarget=False):
     from optiland.optic import Optic
     from optiland.materials import IdealMaterial
     o = Optic()
-    o.add_surface(index=0, thickness=s["obj"])
+    med = s.get("medium")       # a homogeneous immersion medium for mirror systems
+    if med:
+        o.add_surface(index=0, thickness=s["obj"], material=IdealMaterial(n=med))
+    else:
+        o.add_surface(index=0, thickness=s["obj"])
     later = []
     for j, x in enumerate(s["surfs"], 1):
         glass = not isinstance(x["mat"], str)
@@ -233,7 +255,9 @@ def build(s, wavelength=0.55, retarget=False):
     # an image inside glass: the image surface carries that medium (left at its default, air, the
     # image surface would be a glass/air interface and steep rays would be totally reflected there)
     last = s["surfs"][-1]["mat"]
-    if isinstance(last, str):
+    if med:
+        o.add_surface(index=len(s["surfs"]) + 1, material=IdealMaterial(n=med))
+    elif isinstance(last, str):
         o.add_surface(index=len(s["surfs"]) + 1)
     else:
         o.add_surface(index=len(s["surfs"]) + 1, material=IdealMaterial(n=float(last)))
